@@ -24,10 +24,10 @@ Print Assumptions INT_routes_from_source.
 Theorem INT_routing :
   forall (lower : str -> str) (d : deployment) (q : request) (o : oracles) (an : answers) (now_ns : Z),
   let resp := serve lower d q o an now_ns in
-  (r_secured resp = true <-> (exists (slug : str) (k : F.pkind) (rest : str), routed d q slug k rest)) /\
+  (r_secured resp = true <-> (exists (slug : str) (k : akind) (rest : str), routed d q slug k rest)) /\
   (r_secured resp = false -> no_effect resp) /\
   (q_path q <> p_ping -> q_host q <> d_host d -> r_status resp = 421 /\ no_effect resp) /\
-  (forall (slug : str) (k : F.pkind) (rest : str),
+  (forall (slug : str) (k : akind) (rest : str),
    routed d q slug k rest ->
    ~ In rest (map rt_path all_routes) -> no_effect resp /\ (r_status resp = 301 \/ r_status resp = 404)).
 Proof. exact routing_end_to_end. Qed.
@@ -55,7 +55,7 @@ Theorem INT_code_end_to_end :
   let resp := serve lower d q o an now_ns in
   let r := inner q p_sign_in in
   let now_s := (now_ns / ns)%Z in
-  exists (slug : str) (k : F.pkind),
+  exists (slug : str) (k : akind),
     routed d q slug k p_sign_in /\
     sign_in_gates_pass d o now_ns q /\
     src = redirect_value r /\
@@ -119,7 +119,7 @@ Theorem INT_login_end_to_end :
     (now_ns : Z) (s : F.session),
   let resp := serve lower d q o an now_ns in
   In (F.OpSet s) (r_sess_ops resp) ->
-  exists (slug : str) (k : F.pkind),
+  exists (slug : str) (k : akind),
     routed d q slug k p_callback /\
     (let r := inner q p_callback in
      let code := B.form_get B.k_code (the_form r) in
@@ -173,7 +173,7 @@ Theorem INT_backchannel :
   let resp := serve lower d q o an now_ns in
   (forall h : B.handler,
    r_ran resp = Some (HBack h) ->
-   exists (slug : str) (k : F.pkind),
+   exists (slug : str) (k : akind),
      routed d q slug k (rt_path (rt_back h)) /\
      (let r := inner q (rt_path (rt_back h)) in
       mem_str (B.rq_method r) (rt_methods (rt_back h)) = true /\
@@ -183,7 +183,7 @@ Theorem INT_backchannel :
        d_client_secret d <> [] ->
        In (d_client_id d) (B.id_values r) /\ In (d_client_secret d) (B.secret_values r)))) /\
   (forall b : B.body, r_body resp = BJson b -> exists h : B.handler, r_ran resp = Some (HBack h)) /\
-  (forall (slug : str) (k : F.pkind) (h : B.handler),
+  (forall (slug : str) (k : akind) (h : B.handler),
    routed d q slug k (rt_path (rt_back h)) ->
    r_ran resp = None ->
    r_calls resp = [] /\
@@ -194,7 +194,7 @@ Theorem INT_backchannel :
     r_status resp = 401 /\
     (B.presented_id (inner q (rt_path (rt_back h))) <> d_client_id d \/
      B.presented_secret (inner q (rt_path (rt_back h))) <> d_client_secret d))) /\
-  (forall (slug : str) (k : F.pkind),
+  (forall (slug : str) (k : akind),
    routed d q slug k B.p_redeem ->
    r_status resp = 200 ->
    exists s : B.session,
@@ -202,7 +202,7 @@ Theorem INT_backchannel :
      (now_ns / ns <= B.s_refresh_dl s)%Z /\
      (now_ns / ns <= B.s_lifetime_dl s)%Z /\
      r_body resp = BJson (session_json s (now_ns / ns)) /\ r_calls resp = []) /\
-  (forall (slug : str) (k : F.pkind) (rest : str),
+  (forall (slug : str) (k : akind) (rest : str),
    routed d q slug k rest ->
    forall key v : str, H.tbl_lookup key HP.AT = Some v -> H.hget key (headers_of resp) = [H.VStr v]) /\
   (r_secured resp = true ->
@@ -258,8 +258,8 @@ Theorem INT_signout :
   forall (lower : str -> str) (d : deployment) (q : request) (o : oracles) (an : answers) (now_ns : Z),
   let resp := serve lower d q o an now_ns in
   (forall tok : str,
-   In (CRevoke tok) (r_calls resp) -> exists (slug : str) (k : F.pkind), routed d q slug k p_sign_out) /\
-  (forall (slug : str) (k : F.pkind),
+   In (CRevoke tok) (r_calls resp) -> exists (slug : str) (k : akind), routed d q slug k p_sign_out) /\
+  (forall (slug : str) (k : akind),
    routed d q slug k p_sign_out ->
    let r := inner q p_sign_out in
    let ack := acookie_of (cookie_of d o (lookup slug (q_sess q))) in
@@ -310,7 +310,7 @@ Theorem INT_start :
     (now_ns : Z) (st : str),
   let resp := serve lower d q o an now_ns in
   r_loc resp = LIdP st ->
-  exists (slug : str) (k : F.pkind),
+  exists (slug : str) (k : akind),
     routed d q slug k p_start /\
     (let r := inner q p_start in
      let raw := B.form_get k_redirect_uri (B.url_query r) in
@@ -354,7 +354,7 @@ Print Assumptions INT_redirects_in_domain.
    interface answers computed from the IdP's HTTP answers by AuthFlow's provider model. *)
 Theorem INT_adapter_back :
   forall (lower : str -> str) (d : deployment) (o : oracles) (now_ns : Z) (slug : str) 
-    (p : F.pkind) (q : request) (an : answers) (h : B.handler),
+    (p : akind) (q : request) (an : answers) (h : B.handler),
   serve_auth lower d slug p q (rt_path (rt_back h)) o an now_ns =
   of_back d o now_ns p an (inner q (rt_path (rt_back h)))
     (B.serve (bcfg d) (benv d p o an (now_ns / ns)) (d_pre d) (inner q (rt_path (rt_back h)))).
@@ -368,7 +368,7 @@ Print Assumptions INT_adapter_back.
    gate on an unparsable form (bare mux), and the 500 when the redirect's own query does not parse. *)
 Theorem INT_adapter_sign_in :
   forall (lower : str -> str) (d : deployment) (o : oracles) (now_ns : Z) (slug : str) 
-    (p : F.pkind) (q : request) (an : answers) (r : B.request),
+    (p : akind) (q : request) (an : answers) (r : B.request),
   serve_route lower d slug p q o an now_ns rt_sign_in r (B.init_state (d_pre d) r) =
   (if method_ok [B.m_get] r && init_err d r
    then gate_err r 500
@@ -382,7 +382,7 @@ Print Assumptions INT_adapter_sign_in.
 
 Theorem INT_adapter_start :
   forall (lower : str -> str) (d : deployment) (o : oracles) (now_ns : Z) (slug : str) 
-    (p : F.pkind) (q : request) (an : answers) (r : B.request),
+    (p : akind) (q : request) (an : answers) (r : B.request),
   serve_route lower d slug p q o an now_ns rt_start r (B.init_state (d_pre d) r) =
   of_flow_start r (if method_ok [B.m_get] r then Some HStart else None)
     (F.oauth_start (an_nonce an)
@@ -402,7 +402,7 @@ Print Assumptions INT_adapter_start.
    computed by IdToken.redeem from the IdP's token / userinfo answers. *)
 Theorem INT_adapter_callback :
   forall (lower : str -> str) (d : deployment) (o : oracles) (now_ns : Z) (slug : str) 
-    (p : F.pkind) (q : request) (an : answers) (r : B.request),
+    (p : akind) (q : request) (an : answers) (r : B.request),
   serve_route lower d slug p q o an now_ns rt_callback r (B.init_state (d_pre d) r) =
   (if method_ok [B.m_get] r && init_err d r
    then err_with r 500 [] [] [] (Some HCallback)
@@ -419,7 +419,7 @@ Print Assumptions INT_adapter_callback.
    whenever a gate refuses. So every C07 theorem about AuthGates.serve speaks about this model. *)
 Theorem INT_adapter_gates_sign_in :
   forall (lower : str -> str) (d : deployment) (o : oracles) (now_ns : Z) (slug : str) 
-    (p : F.pkind) (q : request) (an : answers) (r : B.request),
+    (p : akind) (q : request) (an : answers) (r : B.request),
   loc_agrees
     (G.serve (gcfg d) now_ns G.EpSignIn (gview d o p an r (gsess_sign_in lower d o now_ns slug p q an)))
     (serve_route lower d slug p q o an now_ns rt_sign_in r (B.init_state (d_pre d) r)).
@@ -428,7 +428,7 @@ Print Assumptions INT_adapter_gates_sign_in.
 
 Theorem INT_adapter_gates_sign_out :
   forall (lower : str -> str) (d : deployment) (o : oracles) (now_ns : Z) (slug : str) 
-    (p : F.pkind) (q : request) (an : answers) (r : B.request),
+    (p : akind) (q : request) (an : answers) (r : B.request),
   loc_agrees (G.serve (gcfg d) now_ns G.EpSignOut (gview d o p an r (gsess_sign_out d o slug q)))
     (serve_route lower d slug p q o an now_ns rt_sign_out r (B.init_state (d_pre d) r)).
 Proof. exact gates_view_sign_out. Qed.
@@ -436,7 +436,7 @@ Print Assumptions INT_adapter_gates_sign_out.
 
 Theorem INT_adapter_gates_start :
   forall (lower : str -> str) (d : deployment) (o : oracles) (now_ns : Z) (slug : str) 
-    (p : F.pkind) (q : request) (an : answers) (r : B.request),
+    (p : akind) (q : request) (an : answers) (r : B.request),
   loc_agrees (G.serve (gcfg d) now_ns G.EpStart (gview_start o r))
     (serve_route lower d slug p q o an now_ns rt_start r (B.init_state (d_pre d) r)).
 Proof. exact gates_view_start. Qed.
@@ -444,7 +444,7 @@ Print Assumptions INT_adapter_gates_start.
 
 Theorem INT_adapter_gates_callback :
   forall (lower : str -> str) (d : deployment) (o : oracles) (now_ns : Z) (slug : str) 
-    (p : F.pkind) (q : request) (an : answers) (r : B.request),
+    (p : akind) (q : request) (an : answers) (r : B.request),
   loc_agrees (G.serve (gcfg d) now_ns G.EpCallback (gview_cb lower d slug p q an r))
     (serve_route lower d slug p q o an now_ns rt_callback r (B.init_state (d_pre d) r)).
 Proof. exact gates_view_callback. Qed.
@@ -454,7 +454,7 @@ Print Assumptions INT_adapter_gates_callback.
    MAC function and every gate-passing request with the same form values, cookie and IdP answer. *)
 Theorem INT_adapter_signout_C19 :
   forall (mac : str -> str -> str) (secret : str) (now' : Z) (d : deployment) (slug : str) 
-    (p : F.pkind) (q : request) (o : oracles) (an : answers) (r : B.request) (parses dom : bool),
+    (p : akind) (q : request) (o : oracles) (an : answers) (r : B.request) (parses dom : bool),
   let qa :=
     {|
       S.q_method := smethod (B.rq_method r);
@@ -485,7 +485,7 @@ Theorem INT_nonvacuous :
    r_status r = 302 /\ r_loc r = LVerbatim Ex.uri /\ r_sess_ops r = [F.OpClear] /\ r_calls r = [CRevoke [116]]) /\
   (let r := serve lower_ascii Ex.d Ex.q_other_host Ex.o Ex.an (1100 * ns)%Z in
    r_status r = 421 /\ r_secured r = false /\ r_loc r = LNone) /\
-  routed Ex.d Ex.q_sign_in [103] F.Google p_sign_in.
+  routed Ex.d Ex.q_sign_in [103] AGoogle p_sign_in.
 Proof. exact nonvacuous. Qed.
 Print Assumptions INT_nonvacuous.
 
